@@ -238,6 +238,30 @@ def oracle(ctx):
     d3 = torch.autograd.functional.hessian(lambda p0, p1, p2: (f3(p0, p1, p2) ** 2).sum(), tuple(t.detach() for t in p3))
     if len(h3) != 2 or not torch.allclose(h3[0].fullmatrix(), d3[2][2]) or not torch.allclose(h3[1].fullmatrix(), d3[0][0]):
         ctx.fail("oracle", "hess:idxs-sequence:order", {"idxs": [2, 0]}, [list(o.shape) for o in h3], [[3, 3], [2, 2]])
+    # a non-tensor / non-differentiable argument BEFORE the selected one: after the parameters are replaced the transposed
+    # product still differentiates with respect to the selected argument (seeded defect C17/4: indexed the tensor-only list)
+    cst = torch.tensor([2.0, -1.0], dtype=DT)                       # does not require grad
+    xs_ = torch.tensor([0.4, 0.9], dtype=DT, requires_grad=True)
+    ys_ = torch.tensor([1.5, -0.3], dtype=DT, requires_grad=True)
+    f4 = lambda c_, tag, x_, y_: c_ * x_ ** 2 * y_ + torch.sin(y_) if tag == "tag" else None
+    J4 = jac(f4, (cst, "tag", xs_, ys_), idxs=2)
+    nx_ = torch.tensor([1.1, -0.4], dtype=DT, requires_grad=True)
+    ny_ = torch.tensor([0.7, 2.0], dtype=DT, requires_grad=True)
+    repl4 = [nx_ if p is xs_ else (ny_ if p is ys_ else p) for p in J4.getlinopparams()]
+    u4 = torch.tensor([1.0, -2.0], dtype=DT)
+    ctx.count(("oracle-nongrad-before-selected",), nontrivial=True)
+    want4 = (2 * cst * nx_ * ny_).detach() * u4
+    try:
+        with J4.uselinopparams(*repl4):
+            r4 = J4.rmv(u4).detach().clone()
+            m4 = J4.mv(u4).detach().clone()
+    except Exception as e:
+        r4 = m4 = torch.full_like(want4, float("nan"))
+        ctx.fail("oracle", "jac:replaced-params:non-differentiable-argument-first", {"arguments": "(constant tensor, 'tag', x, y)", "idxs": 2},
+                 repr(e)[:200], want4.tolist())
+    if torch.isfinite(r4).all() and (not torch.allclose(r4, want4) or not torch.allclose(m4, want4)):
+        ctx.fail("oracle", "jac:replaced-params:non-differentiable-argument-first", {"arguments": "(constant tensor, 'tag', x, y)", "idxs": 2},
+                 {"rmv": r4.tolist(), "mv": m4.tolist()}, want4.tolist())
     # the same for tensors held by the function's object (EditableModule, nn.Module): the replaced tensor is the one the
     # products use and are differentiable with respect to, and the object is untouched afterwards (fix F31: the operator
     # shared the pure function's own parameter list, so editing it turned the substitution into a no-op)
